@@ -46,14 +46,14 @@ def step (s : Unit) (line : String) : Unit × String :=
     | some fn, some a =>
       match Gen.dispatch fn a with
       | some v => (s, s!"ok {hex64 v.toBits}")
-      | none => (s, "bad-op")
+      | none => (s, "unmodelled")
     | _, _ => (s, "bad-op")
   | "f2" :: _ =>
     match (arg? ws "fn").map (·.splitOn ","), (arg? ws "a").bind parseBitsList with
     | some [g, f], some (x :: ps) =>
       match (Gen.dispatch f (x :: ps)).bind fun r => Gen.dispatch g (r :: ps) with
       | some v => (s, s!"ok {hex64 v.toBits}")
-      | none => (s, "bad-op")
+      | none => (s, "unmodelled")
     | _, _ => (s, "bad-op")
   | "unipos" :: _ =>
     match argNat? ws "seed", argNat? ws "k" with
@@ -71,6 +71,8 @@ def step (s : Unit) (line : String) : Unit × String :=
       | some vs => (s, "ok " ++ ",".intercalate vs)
       | none => (s, "bad-op")
     | _, _, _, _ => (s, "bad-op")
+  | "mix" :: _ => (s, "unmodelled")
+  | "mixsample" :: _ => (s, "unmodelled")
   | _ => (s, "bad-op")
 
 def main : IO Unit := runDriver () step
